@@ -184,7 +184,7 @@ Proof.
     rewrite rd_u32s_flat.
     2:{ eapply Forall_impl; [|apply mgs_offs_bound]. cbv beta. intros a Ha.
         rewrite !lenN_app in Hsize. unfold mgsb in Hsize. rewrite !lenN_app in Hsize.
-        fold offs in Hsize. rewrite lenN_flat_be32 in Hsize.
+        fold offs in Hsize. rewrite lenN_flat_be32, ?lenN_be16, ?lenN_cons, ?lenN_nil in Hsize.
         assert (lenN offs = lenN covs) by (unfold lenN; now rewrite Hol). lia. }
     cbn [obind].
     assert (HD2 : D = ((((H12 ++ mgsfield) ++ gcb) ++ macb) ++ [0; 1] ++ be16 (lenN covs) ++ flat_map be32 offs)
@@ -194,6 +194,90 @@ Proof.
     rewrite (rd_sets_at_ok mgsOff post ss covs _ (4 + 4 * lenN covs) Ecovs Hsets).
     + reflexivity.
     + rewrite lenN_app, <- Hoff. lens. rewrite lenN_flat_be32. fold offs.
-      unfold lenN at 2. rewrite Hol. fold (lenN covs). lia.
+      assert (lenN offs = lenN covs) by (unfold lenN; now rewrite Hol). lia.
   - replace (mgsOff =? 0) with true by reflexivity. reflexivity.
+Qed.
+
+(* ---- the reader never panics ---- *)
+Lemma covset_read1_np cnt : forall r acc, covset_read1 cnt r acc <> Panic.
+Proof.
+  induction cnt as [|c IH]; intros r acc; cbn [covset_read1]; [discriminate|].
+  destruct r as [|a [|b r']]; try discriminate. apply IH.
+Qed.
+
+Lemma covset_read2_np cnt : forall r pos prev acc, covset_read2 cnt r pos prev acc <> Panic.
+Proof.
+  induction cnt as [|c IH]; intros r pos prev acc; cbn [covset_read2]; [discriminate|].
+  destruct r as [|a [|b [|c0 [|d [|e [|f r']]]]]]; try discriminate.
+  destruct (_ || _); [discriminate|]. apply IH.
+Qed.
+
+Lemma covset_read_total data pos : M_covset_read data pos <> Panic.
+Proof.
+  unfold M_covset_read. destruct (seek data pos) as [|a [|b [|c [|d r]]]]; try discriminate.
+  destruct (w16 a b =? 1); [apply covset_read1_np|].
+  destruct (w16 a b =? 2); [apply covset_read2_np|discriminate].
+Qed.
+
+Lemma rd_u32s_np n : forall r, rd_u32s n r <> Panic.
+Proof.
+  induction n as [|n IH]; intros r; cbn [rd_u32s]; [discriminate|].
+  destruct r as [|a [|b [|c [|d r']]]]; try discriminate.
+  specialize (IH r'). destruct (rd_u32s n r'); cbn [obind]; congruence.
+Qed.
+
+Lemma rd_sets_at_np data pos offs : rd_sets_at data pos offs <> Panic.
+Proof.
+  induction offs as [|o r IH]; cbn [rd_sets_at]; [discriminate|].
+  pose proof (covset_read_total data (pos + o)).
+  destruct (M_covset_read data (pos + o)); cbn [obind]; try congruence.
+  destruct (rd_sets_at data pos r); cbn [obind]; congruence.
+Qed.
+
+Lemma rd_opt_cd_np data off : rd_opt_cd data off <> Panic.
+Proof.
+  unfold rd_opt_cd. destruct (off =? 0); [discriminate|].
+  pose proof (cd_read_total data off). destruct (M_cd_read data off); cbn [obind]; congruence.
+Qed.
+
+Lemma gdef_read_total_aux data : M_gdef_read data <> Panic.
+Proof.
+  unfold M_gdef_read.
+  destruct data as [|a [|b [|c [|d [|e [|f [|g0 [|h [|i [|j [|k [|l r]]]]]]]]]]]]; try discriminate.
+  destruct (_ || _); [discriminate|].
+  destruct (2 <=? w16 c d).
+  - destruct r as [|m [|n r']]; cbn [obind]; try discriminate. cbn [fst snd].
+    assert (Hrest : forall X : outcome unit, X <> Panic ->
+      (_ <- X ;; gc <- rd_opt_cd (a :: b :: c :: d :: e :: f :: g0 :: h :: i :: j :: k :: l :: m :: n :: r') (w16 e f) ;;
+       mac <- rd_opt_cd (a :: b :: c :: d :: e :: f :: g0 :: h :: i :: j :: k :: l :: m :: n :: r') (w16 k l) ;;
+       sets <- (if w16 m n =? 0 then Ok None
+                else match seek (a :: b :: c :: d :: e :: f :: g0 :: h :: i :: j :: k :: l :: m :: n :: r') (w16 m n) with
+                     | p :: q :: u :: v :: r2 =>
+                       if negb (w16 p q =? 1) then Err
+                       else offs <- rd_u32s (N.to_nat (w16 u v)) r2 ;;
+                            ss <- rd_sets_at (a :: b :: c :: d :: e :: f :: g0 :: h :: i :: j :: k :: l :: m :: n :: r') (w16 m n) offs ;;
+                            Ok (Some ss)
+                     | _ => Err end) ;;
+       Ok {| g_gc := gc; g_mac := mac; g_sets := sets |}) <> Panic).
+    { intros X HX. destruct X; cbn [obind]; try congruence.
+      set (D := a :: b :: c :: d :: e :: f :: g0 :: h :: i :: j :: k :: l :: m :: n :: r').
+      pose proof (rd_opt_cd_np D (w16 e f)). destruct (rd_opt_cd D (w16 e f)); cbn [obind]; try congruence.
+      pose proof (rd_opt_cd_np D (w16 k l)). destruct (rd_opt_cd D (w16 k l)); cbn [obind]; try congruence.
+      destruct (w16 m n =? 0); cbn [obind]; [discriminate|].
+      destruct (seek D (w16 m n)) as [|p [|q [|u [|v r2]]]]; cbn [obind]; try discriminate.
+      destruct (negb (w16 p q =? 1)); cbn [obind]; [discriminate|].
+      pose proof (rd_u32s_np (N.to_nat (w16 u v)) r2). destruct (rd_u32s _ r2) as [offs| | |]; cbn [obind]; try congruence.
+      pose proof (rd_sets_at_np D (w16 m n) offs). destruct (rd_sets_at D (w16 m n) offs); cbn [obind]; congruence. }
+    apply Hrest. destruct (3 <=? w16 c d); [|discriminate]. destruct r' as [|? [|? [|? [|? ?]]]]; discriminate.
+  - cbn [obind fst snd].
+    destruct (3 <=? w16 c d); cbn [obind].
+    + destruct r as [|? [|? [|? [|? ?]]]]; cbn [obind]; try discriminate.
+      all: set (D := a :: b :: c :: d :: e :: f :: g0 :: h :: i :: j :: k :: l :: _);
+        pose proof (rd_opt_cd_np D (w16 e f)); destruct (rd_opt_cd D (w16 e f)); cbn [obind]; try congruence;
+        pose proof (rd_opt_cd_np D (w16 k l)); destruct (rd_opt_cd D (w16 k l)); cbn [obind]; try congruence;
+        discriminate.
+    + set (D := a :: b :: c :: d :: e :: f :: g0 :: h :: i :: j :: k :: l :: r).
+      pose proof (rd_opt_cd_np D (w16 e f)). destruct (rd_opt_cd D (w16 e f)); cbn [obind]; try congruence.
+      pose proof (rd_opt_cd_np D (w16 k l)). destruct (rd_opt_cd D (w16 k l)); cbn [obind]; try congruence.
+      discriminate.
 Qed.
